@@ -160,6 +160,12 @@ pub fn compress_args(spec: &CompressSpec, input: Option<&str>, output: &str, for
             _ => {
                 let f = format!("meta{}.bin", i);
                 put_file(&f, v);
+                // (a value may come from something whose stat size says nothing: a device, a pipe)
+                let dev = !v.is_empty() && simkit::chance(1, 8);
+                sys::with(|s| s.path_mut(&f).fake_blockdev = dev);
+                if dev {
+                    simkit::count("probe:metadata-file-with-stat-size-0");
+                }
                 a.push("--metadata-file".into());
                 a.push(k.clone());
                 a.push(f);
@@ -206,6 +212,36 @@ pub fn compress_lib_failing_with(spec: &CompressSpec, source: Arc<Vec<u8>>, temp
     // callers pass. What counts is the file as another process finds it at the moment
     // create_archive returns: a write still on its way to the blocking pool is not in it
     if temp_override.is_none() && simkit::chance(1, 3) {
+        return compress_lib_into_file(input, options);
+    }
+    let sink = SimSink::drawn();
+    let sink2 = sink.clone();
+    let r = run_async(async move {
+        create_archive(input, sink2, &options).await.map(|_| ()).map_err(|e| {
+            use std::error::Error;
+            format!("{} <- {}", e, e.source().map(|s| s.to_string()).unwrap_or_default())
+        })
+    });
+    LibCompress { outcome: outcome_of(r), archive: sink.bytes() }
+}
+
+/// `create_archive` into a (facade) tokio::fs::File at `lib.cba`; the archive is the file as it
+/// is when create_archive returns
+pub fn compress_lib_to_file(spec: &CompressSpec, source: Arc<Vec<u8>>) -> LibCompress {
+    let options = bitar::api::compress::CreateArchiveOptions {
+        chunker_config: spec.cfg.to_config(),
+        num_chunk_buffers: spec.buffers,
+        chunk_hash_length: spec.hash_len,
+        temporary_file_override: None,
+        compression: spec.comp.to_bitar(),
+        metadata: spec.metadata.clone(),
+    };
+    compress_lib_into_file(SimSource::drawn(source), options)
+}
+
+fn compress_lib_into_file(input: SimSource, options: bitar::api::compress::CreateArchiveOptions) -> LibCompress {
+    use bitar::api::compress::create_archive;
+    {
         simkit::count("probe:lib-compress-into-tokio-file");
         quiet(|| {
             let _ = std::fs::remove_file("lib.cba");
@@ -223,23 +259,14 @@ pub fn compress_lib_failing_with(spec: &CompressSpec, source: Arc<Vec<u8>>, temp
             drop(out);
             (res, seen)
         });
-        return match r {
+        match r {
             Ok(End::Done((res, seen))) => LibCompress { outcome: outcome_of(Ok(End::Done(res))), archive: seen },
             Ok(End::StepBudget) => LibCompress { outcome: Outcome::StepBudget, archive: Vec::new() },
             Ok(End::Deadlock) => LibCompress { outcome: Outcome::Deadlock, archive: Vec::new() },
             Ok(End::Crashed) => LibCompress { outcome: Outcome::Crashed, archive: Vec::new() },
             Err(p) => LibCompress { outcome: Outcome::Panic(p), archive: Vec::new() },
-        };
+        }
     }
-    let sink = SimSink::drawn();
-    let sink2 = sink.clone();
-    let r = run_async(async move {
-        create_archive(input, sink2, &options).await.map(|_| ()).map_err(|e| {
-            use std::error::Error;
-            format!("{} <- {}", e, e.source().map(|s| s.to_string()).unwrap_or_default())
-        })
-    });
-    LibCompress { outcome: outcome_of(r), archive: sink.bytes() }
 }
 
 #[derive(Clone, Debug, Default)]
